@@ -431,27 +431,15 @@ def run_cfg(chk, facts, cfg):
                         probs.append('confidence / quantile not passed through unchanged')
                     clo = so[2]
                     # comparator: ascending on the three orderings of (a, b)
-                    if clo[0] != 'closure' or clo[2] is None:
-                        probs.append('comparator is not a closure')
+                    if clo[0] not in ('closure', 'fn') or (clo[0] == 'closure' and clo[2] is None) or (clo[0] == 'fn' and len(clo) < 3):
+                        probs.append('comparator is not a closure or function of this crate')
                     else:
-                        insts = sx._insts_by_id[clo[2][0]]
-                        cdef = insts[clo[2][1]]['def']
+                        # the comparator (a closure or a named function), run on references to two fresh elements
                         sx2 = Summarizer(facts, assume_no_overflow=True)
-                        # closure instances are not roots: run it through the parent's instance table
-                        from ..symex import State
-                        st = State()
-                        fr = sx2.push_frame(st, insts, clo[2][1], None, None)
-                        body = facts.bodies[cdef]
-                        env_cell = sx2.new_heap(None, None)
-                        st.cells[env_cell] = ('closure', cdef, clo[2], ())
-                        st.cells[(fr.fid, 1)] = ('ref', env_cell, ())
                         ca, cb = sx2.new_heap(None, None), sx2.new_heap(None, None)
-                        st.cells[ca] = T.sym('a')
-                        st.cells[cb] = T.sym('b')
-                        st.cells[(fr.fid, 2)] = ('ref', ca, ())
-                        st.cells[(fr.fid, 3)] = ('ref', cb, ())
-                        cps = sx2.run(st, [])
-                        chk.saw(facts, facts.fns[cdef], paths=len(cps))
+                        cps = sx2.run_callable(fn['id'], clo, [('ref', ca, ()), ('ref', cb, ())], cells={ca: T.sym('a'), cb: T.sym('b')})
+                        cdef = None
+                        chk.analysed['paths'] += len(cps)
                         for env in weak_orders(['a', 'b']):
                             hits = [p for p in cps if guard_holds(p.guard, {}, env)]
                             outs = set(p.ret if p.is_ret() else ('panic',) for p in hits)
